@@ -219,7 +219,7 @@ contract(
 
 contract(
     NS, "NestedSampler.finalise", props=["C01", "C15", "C05"],
-    requires=LIVE_INV,
+    requires=LIVE_INV + ["self.block_iteration >= 0"],
     modifies=["self.state", "self.nested_samples", "self.live_points",
               "self.finalised", "self.block_acceptance",
               "self.block_iteration", "self.proposal"],
